@@ -407,6 +407,12 @@ fn evaluate(a: &mut Acc, id: &dyn Fn() -> String, r: &R, cfg: &SvcCfg, axes_name
                     a.fail("C04/response-body-error", ii, id(), format!("response body stream failed: {e}"), json!({}));
                 }
             }
+            // the response must be one a server can put on the wire: what its body declares about its size is what follows
+            if let Some(f) = &resp.framing_fault {
+                if !injected_io {
+                    a.fail("C04/response-body-declares-another-size", ii, id(), f.clone(), json!({"request": r.req.describe()}));
+                }
+            }
             let st = resp.status.as_u16();
             if st >= 400 {
                 match read_error_doc(&resp.body_str()) {
